@@ -50,6 +50,7 @@ class Sched:
         self.deadlock = None     # description of the deadlock that ended the run, if any
         self.thread_errors = []
         self.on_deadlock = []    # callables run at the instant a deadlock is detected (before threads are torn down)
+        self.on_switch = None    # callable(thread, "file:line:function", next thread): a line pre-emption switched threads
         self.preempt = 0.0       # probability of a scheduling point at each traced line of anyio's thread-crossing code
 
     # -- registration -------------------------------------------------------------------------
@@ -90,6 +91,8 @@ class Sched:
         self.log.append((rec.index, tag, nxt.index))
         if nxt is not rec:
             self.stats["thread_preempt"] += 1
+            if self.on_switch is not None and tag.startswith("line:"):
+                self.on_switch(rec.name, tag[5:], nxt.name)
             self._transfer(rec, nxt)
 
     def block_until(self, pred, tag=""):
@@ -217,7 +220,8 @@ def _local_trace(frame, event, arg):
         if s is not None and s.preempt and not s.aborted and s.cur is s.by_ident.get(threading.get_ident()):
             if s.rng.random() < s.preempt:
                 s.stats["line_preempt_point"] += 1
-                s.yield_point("line")
+                code = frame.f_code
+                s.yield_point(f"line:{code.co_filename.rsplit('/', 1)[-1]}:{frame.f_lineno}:{code.co_name}")
     return _local_trace
 
 
